@@ -13,6 +13,8 @@ std::unique_ptr<NodeResult> CastNode::evaluate(PSC::Context &ctx) {
     if (value->type == PSC::DataType::NONE || !value->data->isPrimitive())
         throw PSC::TypeOperationError(token, ctx, "Cast");
     if (value->type == target) return value;
+    if (value->type == PSC::DataType::DATE && target != PSC::DataType::INTEGER && target != PSC::DataType::STRING)
+        throw PSC::RuntimeError(token, ctx, "A DATE can only be cast to INTEGER or STRING");
 
     auto pvalue = static_cast<const PSC::Primitive*>(value->data.get());
 
